@@ -1252,20 +1252,39 @@ INTEGER_compare(const asn_TYPE_descriptor_t *td, const void *aptr,
 
     if(a && b) {
         if(a->size && b->size) {
+            const uint8_t *a_buf = a->buf;
+            const uint8_t *b_buf = b->buf;
+            size_t a_size = a->size;
+            size_t b_size = b->size;
             int sign_a = (a->buf[0] & 0x80) ? -1 : 1;
             int sign_b = (b->buf[0] & 0x80) ? -1 : 1;
 
             if(sign_a < sign_b) return -1;
             if(sign_a > sign_b) return 1;
 
+            /*
+             * The values are compared, not their representations:
+             * skip the leading superfluous octets (X.690 #8.3.2).
+             */
+            for(; a_size > 1; a_buf++, a_size--) {
+                if(a_buf[0] == 0x00 && (a_buf[1] & 0x80) == 0) continue;
+                if(a_buf[0] == 0xff && (a_buf[1] & 0x80) != 0) continue;
+                break;
+            }
+            for(; b_size > 1; b_buf++, b_size--) {
+                if(b_buf[0] == 0x00 && (b_buf[1] & 0x80) == 0) continue;
+                if(b_buf[0] == 0xff && (b_buf[1] & 0x80) != 0) continue;
+                break;
+            }
+
             /* The shortest integer wins, unless comparing negatives */
-            if(a->size < b->size) {
+            if(a_size < b_size) {
                 return -1 * sign_a;
-            } else if(a->size > b->size) {
+            } else if(a_size > b_size) {
                 return 1 * sign_b;
             }
 
-            return sign_a * memcmp(a->buf, b->buf, a->size);
+            return sign_a * memcmp(a_buf, b_buf, a_size);
         } else if(a->size) {
             int sign = (a->buf[0] & 0x80) ? -1 : 1;
             return (1) * sign;
